@@ -69,6 +69,10 @@ def exec (w : W) (t : List String) : W × String × Option Nat :=
     match getCl w (n c) with
     | none => (w, "bad-client", none)
     | some cl => let (cl', r) := stageCommit cl (n ev) (n ts) (n idnum) (.setName (n tok)) true; (withRes w cl' r, resStr r, some (n c))
+  | ["remove", c, j, ev, ts, idnum] =>
+    match getCl w (n c) with
+    | none => (w, "bad-client", none)
+    | some cl => let (cl', r) := stageCommit cl (n ev) (n ts) (n idnum) (.removeLeavers [n j]) true; (withRes w cl' r, resStr r, some (n c))
   | ["leave", c, ev, ts, idnum] =>
     match getCl w (n c) with
     | none => (w, "bad-client", none)
